@@ -524,34 +524,38 @@ Ltac kv_step :=
   match goal with |- context [check_kv ?a ?b ?c] =>
     let E := fresh "E" in let e := fresh "e" in
     destruct (check_kv a b c) as [e|] eqn:E;
-    [let H := fresh in intros H; inversion H; subst; exact (check_kv_nf _ _ _ _ E eq_refl)|]
+    [let H := fresh in intros H; injection H as H; exact (check_kv_nf _ _ _ _ E H)|]
   end.
+
+(* the keyword strings stay folded in what follows: unification must not evaluate them *)
+Local Opaque s2l.
 
 (** whatever the bytes, the reader returns a MOC or one of the errors of the code *)
 Theorem fits_read_total b : fits_read b <> FErr FFuel.
 Proof.
   unfold fits_read, consume_primary.
   destruct (read_block_cases b) as [[Hb0 Eb0]|[Hb0 Eb0]]; rewrite Eb0; [discriminate|].
+  clear Hb0 Eb0. generalize (skipn 2880 b) (chunks 36 (firstn 2880 b)). intros rest0 cs0.
   kv_step. kv_step.
-  set (rest0 := skipn 2880 b).
-  assert (P : forall x, (if contains_end (skipn 3 (chunks 36 (firstn 2880 b))) then Datatypes.inr rest0 else skip_to_end (S (List.length rest0)) rest0) = Datatypes.inl x -> x <> FFuel).
+  assert (P : forall x, (if contains_end (skipn 3 cs0) then Datatypes.inr rest0 else skip_to_end (S (List.length rest0)) rest0) = Datatypes.inl x -> x <> FFuel).
   { intros x. destruct (contains_end _); [discriminate|]. intros H Z. subst x. exact (skip_to_end_fuel _ _ (Nat.lt_succ_diag_r _) H). }
-  destruct (if contains_end (skipn 3 (chunks 36 (firstn 2880 b))) then Datatypes.inr rest0 else skip_to_end (S (List.length rest0)) rest0) as [x|b1] eqn:EP.
-  { intros H. inversion H; subst. exact (P FFuel eq_refl eq_refl). }
+  destruct (if contains_end (skipn 3 cs0) then Datatypes.inr rest0 else skip_to_end (S (List.length rest0)) rest0) as [x|b1] eqn:EP.
+  { intros H. injection H as H. subst x. exact (P FFuel eq_refl eq_refl). }
   clear P EP.
   destruct (read_block_cases b1) as [[Hb1 Eb1]|[Hb1 Eb1]]; rewrite Eb1; [discriminate|].
+  clear Hb1 Eb1. generalize (skipn 2880 b1) (chunks 36 (firstn 2880 b1)). intros rest1 cs1.
   kv_step. kv_step. kv_step.
   destruct (check_kw_uint 8 _ _) as [e|nbytes] eqn:EU1.
-  { intros H. inversion H; subst. exact (check_kw_uint_nf _ _ _ _ EU1 eq_refl). }
+  { intros H. injection H as H. exact (check_kw_uint_nf _ _ _ _ EU1 H). }
   destruct (check_kw_uint 64 _ _) as [e|nelems] eqn:EU2.
-  { intros H. inversion H; subst. exact (check_kw_uint_nf _ _ _ _ EU2 eq_refl). }
+  { intros H. injection H as H. exact (check_kw_uint_nf _ _ _ _ EU2 H). }
   kv_step. kv_step. kv_step.
   destruct (kw_blocks _ _ _ _) as [e|[m data]] eqn:EK.
   { intros H. inversion H; subst. exact (kw_blocks_fuel _ _ _ _ (Nat.lt_succ_diag_r _) _ EK eq_refl). }
   destruct (dispatch m) as [e|[[lf d1] d2]] eqn:ED.
-  { intros H. inversion H; subst. exact (dispatch_nf m FFuel ED eq_refl). }
+  { intros H. injection H as H. subst e. exact (dispatch_nf m FFuel ED eq_refl). }
   destruct (width_of lf m nbytes) as [e|w] eqn:EW.
-  { intros H. inversion H; subst. exact (width_of_nf lf m nbytes FFuel EW eq_refl). }
+  { intros H. injection H as H. subst e. exact (width_of_nf lf m nbytes FFuel EW eq_refl). }
   destruct lf; try discriminate.
   destruct (read_nuniq _ _ _ _ _ _ _) as [e|cells] eqn:EN; [|discriminate].
   intros H. inversion H; subst.
@@ -580,22 +584,23 @@ Theorem mom_read_total b : mom_read b <> MomErr FFuel.
 Proof.
   unfold mom_read, consume_primary.
   destruct (read_block_cases b) as [[Hb0 Eb0]|[Hb0 Eb0]]; rewrite Eb0; [discriminate|].
+  clear Hb0 Eb0. generalize (skipn 2880 b) (chunks 36 (firstn 2880 b)). intros rest0 cs0.
   kv_step. kv_step.
-  set (rest0 := skipn 2880 b).
-  assert (P : forall x, (if contains_end (skipn 3 (chunks 36 (firstn 2880 b))) then Datatypes.inr rest0 else skip_to_end (S (List.length rest0)) rest0) = Datatypes.inl x -> x <> FFuel).
+  assert (P : forall x, (if contains_end (skipn 3 cs0) then Datatypes.inr rest0 else skip_to_end (S (List.length rest0)) rest0) = Datatypes.inl x -> x <> FFuel).
   { intros x. destruct (contains_end _); [discriminate|]. intros H Z. subst x. exact (skip_to_end_fuel _ _ (Nat.lt_succ_diag_r _) H). }
-  destruct (if contains_end (skipn 3 (chunks 36 (firstn 2880 b))) then Datatypes.inr rest0 else skip_to_end (S (List.length rest0)) rest0) as [x|b1] eqn:EP.
-  { intros H. inversion H; subst. exact (P FFuel eq_refl eq_refl). }
+  destruct (if contains_end (skipn 3 cs0) then Datatypes.inr rest0 else skip_to_end (S (List.length rest0)) rest0) as [x|b1] eqn:EP.
+  { intros H. injection H as H. subst x. exact (P FFuel eq_refl eq_refl). }
   clear P EP.
   destruct (read_block_cases b1) as [[Hb1 Eb1]|[Hb1 Eb1]]; rewrite Eb1; [discriminate|].
+  clear Hb1 Eb1. generalize (skipn 2880 b1) (chunks 36 (firstn 2880 b1)). intros rest1 cs1.
   kv_step. kv_step. kv_step.
   destruct (check_kw_uint 64 _ (s2l "NAXIS1  ")) as [e|nbytes] eqn:EU1.
-  { intros H. inversion H; subst. exact (check_kw_uint_nf _ _ _ _ EU1 eq_refl). }
+  { intros H. injection H as H. exact (check_kw_uint_nf _ _ _ _ EU1 H). }
   destruct (check_kw_uint 64 _ (s2l "NAXIS2 ")) as [e|nrows] eqn:EU2.
-  { intros H. inversion H; subst. exact (check_kw_uint_nf _ _ _ _ EU2 eq_refl). }
+  { intros H. injection H as H. exact (check_kw_uint_nf _ _ _ _ EU2 H). }
   kv_step. kv_step.
   destruct (check_kw_uint 64 _ (s2l "TFIELDS ")) as [e|nf] eqn:EU3.
-  { intros H. inversion H; subst. exact (check_kw_uint_nf _ _ _ _ EU3 eq_refl). }
+  { intros H. injection H as H. exact (check_kw_uint_nf _ _ _ _ EU3 H). }
   kv_step. kv_step. kv_step. kv_step.
   destruct (kw_blocks _ _ _ _) as [e|[m data]] eqn:EK.
   { intros H. inversion H; subst. exact (kw_blocks_fuel _ _ _ _ (Nat.lt_succ_diag_r _) _ EK eq_refl). }
@@ -607,4 +612,62 @@ Proof.
   destruct (29 <? d); [discriminate|]. destruct (_ || _); [discriminate|].
   destruct (mom_rows _ _ _ _ _ _) as [e|rows] eqn:EM; [|discriminate].
   intros H. inversion H; subst. exact (mom_rows_fuel _ _ _ _ _ _ (Nat.lt_succ_diag_r _) EM).
+Qed.
+
+(** ---------- the sky-map reader (header and row availability) never runs out of fuel ---------- *)
+Lemma check_kw_nf rec kw e : check_kw rec kw = Some e -> e <> FFuel.
+Proof. unfold check_kw. destruct (starts_with kw rec); intros H; inversion H. discriminate. Qed.
+Lemma check_ind_nf rec e : check_ind rec = Some e -> e <> FFuel.
+Proof. unfold check_ind. destruct (list_eqb _ _); intros H; inversion H. discriminate. Qed.
+
+Ltac kw_step :=
+  match goal with |- context [check_kw ?a ?b] =>
+    let E := fresh "E" in let e := fresh "e" in
+    destruct (check_kw a b) as [e|] eqn:E;
+    [let H := fresh in intros H; injection H as H; exact (check_kw_nf _ _ _ E H)|]
+  end.
+Ltac ind_step :=
+  match goal with |- context [check_ind ?a] =>
+    let E := fresh "E" in let e := fresh "e" in
+    destruct (check_ind a) as [e|] eqn:E;
+    [let H := fresh in intros H; injection H as H; exact (check_ind_nf _ _ E H)|]
+  end.
+
+Theorem sky_read_total b : sky_read b <> SkyErr FFuel.
+Proof.
+  unfold sky_read, consume_primary.
+  destruct (read_block_cases b) as [[Hb0 Eb0]|[Hb0 Eb0]]; rewrite Eb0; [discriminate|].
+  clear Hb0 Eb0. generalize (skipn 2880 b) (chunks 36 (firstn 2880 b)). intros rest0 cs0.
+  kv_step. kv_step.
+  assert (P : forall x, (if contains_end (skipn 3 cs0) then Datatypes.inr rest0 else skip_to_end (S (List.length rest0)) rest0) = Datatypes.inl x -> x <> FFuel).
+  { intros x. destruct (contains_end _); [discriminate|]. intros H Z. subst x. exact (skip_to_end_fuel _ _ (Nat.lt_succ_diag_r _) H). }
+  destruct (if contains_end (skipn 3 cs0) then Datatypes.inr rest0 else skip_to_end (S (List.length rest0)) rest0) as [x|b1] eqn:EP.
+  { intros H. injection H as H. subst x. exact (P FFuel eq_refl eq_refl). }
+  clear P EP.
+  destruct (read_block_cases b1) as [[Hb1 Eb1]|[Hb1 Eb1]]; rewrite Eb1; [discriminate|].
+  clear Hb1 Eb1. generalize (skipn 2880 b1) (chunks 36 (firstn 2880 b1)). intros rest1 cs1.
+  kv_step. kv_step. kv_step.
+  destruct (check_kw_uint 64 _ (s2l "NAXIS1  ")) as [e|nbytes] eqn:EU1.
+  { intros H. injection H as H. exact (check_kw_uint_nf _ _ _ _ EU1 H). }
+  destruct (check_kw_uint 64 _ (s2l "NAXIS2 ")) as [e|nrows] eqn:EU2.
+  { intros H. injection H as H. exact (check_kw_uint_nf _ _ _ _ EU2 H). }
+  kv_step. kv_step.
+  destruct (check_kw_uint 64 _ (s2l "TFIELDS ")) as [e|nf] eqn:EU3.
+  { intros H. injection H as H. exact (check_kw_uint_nf _ _ _ _ EU3 H). }
+  kw_step. ind_step. destruct (str_val _); [|discriminate].
+  kw_step. ind_step. destruct (str_val _) as [tf|]; [|discriminate].
+  cbv zeta.
+  destruct (if _ || _ then Some (true, 1) else _) as [[is64 np]|]; [|discriminate].
+  destruct (kw_blocks _ _ _ _) as [e|[m data]] eqn:EK.
+  { intros H. inversion H; subst. exact (kw_blocks_fuel _ _ _ _ (Nat.lt_succ_diag_r _) _ EK eq_refl). }
+  destruct (kw_get m 11); [|discriminate].
+  destruct (depth_at m 10) as [d|].
+  - destruct (29 <? d); [discriminate|]. destruct (negb _); [discriminate|]. destruct (_ || _); [discriminate|].
+    destruct (kw_get m 2) as [[o| |d'|n']|]; try discriminate.
+    destruct (_ || _); [|discriminate]. destruct (_ <? _); discriminate.
+  - destruct (kw_get m 14) as [[o| |d'|ns]|]; try discriminate.
+    destruct (_ && _); [|discriminate]. destruct (log2_pow2 40 ns) as [d|]; [|discriminate].
+    destruct (29 <? d); [discriminate|]. destruct (negb _); [discriminate|]. destruct (_ || _); [discriminate|].
+    destruct (kw_get m 2) as [[o| |d'|n']|]; try discriminate.
+    destruct (_ || _); [|discriminate]. destruct (_ <? _); discriminate.
 Qed.
